@@ -200,13 +200,15 @@ class StmtMixin:
                 val = Ext(a.name if a.asname else top)
             self.store_name(a.asname or top, val, fr)
 
-    def s_ImportFrom(self, st, fr):
+    def s_ImportFrom(self, st, fr, only=None):
         if st.level:
             base = self.repo.resolve_relative(fr.module, st.level, st.module)
         else:
             base = st.module
         for a in st.names:
             nm = a.asname or a.name
+            if only is not None and nm != only:
+                continue
             if base.split('.')[0] == 'AEIC' and self.repo.has_module(base):
                 sub = base + '.' + a.name
                 mod = self.repo.module(base)
